@@ -41,9 +41,11 @@ def request_traces(prog):
                         n = cs.name or ""
                         if n.endswith("::get_error"):
                             return NONE
-                        if cs.fn == "core::future::future::Future::poll" and cs.res and cs.res.startswith("acmed::storage::get_keypair"):
+                        if cs.fn == "core::future::future::Future::poll" and cs.res and cs.res.startswith("acmed::storage::get_keypair::"):
                             inner = ok(marker("STOREDKEY")) if stored_ok else _err("unreadable key file")
                             return Val("adt", [inner], ("core::task::poll::Poll", "Ready"))
+                        if cs.is_("std::path::Path::is_file", "std::path::Path::exists", "std::path::Path::try_exists"):
+                            return vbool(True)                  # an older key / certificate file is on disk (readable or not)
                         if n.endswith("openssl_keys::gen_keypair"):
                             return ok(marker("NEWKEY"))
                         if n.endswith("X509Certificate::from_pem"):
